@@ -108,6 +108,8 @@ int g = 0;
 int f(int x) { g += 1; write('f'); write(x); write(' '); return x + g; }
 byte q(int x) { write('q'); return (x + 65) is byte; }
 const int KM = 0 - 1;
+const bool QUIET = true;
+const bool VERBOSE = false;
 const int[] GT = [7, 8];
 string GS = "glob";
 int twice() { int[] t = [3, 4]; t[1] += 1; return t[1]; }
@@ -125,6 +127,11 @@ EFFECT_EXPRS = [
     '[f(1), 2].length + [f(2)].length', '(not ([f(1)] is bool)) is int',
     # constant indices must be checked like run-time ones
     '[1, 2, 3][-1]', '[1, 2, 3][0 - 1]', 'tab[-1]', 'tab[KM]', 'tab[3]', 'tab[KM + 4]', 'GT[-1]', 'GT[KM]', 'GT[2]', '"abc"[-1] is int', '"abc"[KM] is int', 'GS[KM] is int',
+    # an absorbing constant on the right does not make the left operand disappear: its faults are effects (no call needed)
+    '((tab[ten] > 15) and false) is int', '((7 / z < 0) or true) is int', '((tab[z] > 15) and false) is int', '((60 / z < 0) or QUIET) is int',
+    '((tab[ten] > 15) and VERBOSE) is int', '((GS[ten] is int > 1) and VERBOSE) is int', '(false and (tab[ten] > 1)) is int', '(true or (7 / z > 0)) is int',
+    '(VERBOSE and (tab[ten] > 1)) is int', '(QUIET or (7 / z > 0)) is int', '(0 * tab[ten])', '(tab[ten] - tab[ten])', '((GS[ten] is int) * 0)', '(tab[ten] % 1)',
+    '(3 ?? tab[ten])', '(3 ?? (7 / z))', '(KM ?? GT[ten])', '(QUIET ?? (7 / z > 0)) is int',
     # a mutable literal with constant elements is a fresh array each time it is evaluated
     'twice() + twice()', 'bump([5, 6]) + bump([5, 6])', 'loopsum()',
 ]
